@@ -132,10 +132,9 @@ def check_ratio_api(run, cx, cfg):
                 for c, v in cond_facts(p):
                     if c[0] == 'op' and c[1] == 'Gt' and fconst(c[3], 0.0) and N(c[2]) == want and v == ('bool', True):
                         okc = True
-                    if c[0] == 'op' and c[1] == 'Le' and fconst(c[3], 0.0) and N(c[2]) == want and v == ('bool', False):
-                        okc = True
+                    # (`!(ratio <= 0.0)` is NOT the same guard: it lets NaN through, and a NaN ratio never advances)
                 if not okc:
-                    bad = 'constructs the converter without having asserted ratio > 0'
+                    bad = 'constructs the converter without having asserted ratio > 0 (a guard of the form !(ratio <= 0) admits NaN)'
             if bad:
                 break
         if not bad and not [p for p in ps if p['end'] != 'return']:
